@@ -211,7 +211,7 @@ def run(ctx: Ctx) -> None:
             if case["cred"] == "good":
                 hdrs["Authorization"] = "Bearer good"
             elif case["cred"] == "bad":
-                hdrs["Authorization"] = ctx.rng.choice(["Bearer nope", "Basic Z29vZA==", "bearer good", "Bearer good "])
+                hdrs["Authorization"] = ctx.rng.choice(["Bearer nope", "Basic Z29vZA==", "bearer good", "Bearer goodx", "Bearer  good"])
             W.reset()
             full = url + ("?" + qs if qs else "")
             status, rh, content = W.request(client, case["verb"], full, body, hdrs)
